@@ -20,11 +20,13 @@ pub fn no_child(_: &[String]) -> i32 {
 
 pub mod okey;
 pub mod capi_sched;
+pub mod locks;
 
 pub fn all() -> Vec<StreamDef> {
     vec![
         okey::def(),
         capi_sched::def(),
+        locks::def(),
     ]
 }
 
